@@ -98,6 +98,7 @@ ssize_t __wrap_writev(int fd, const struct iovec *iov, int cnt) {
 		left -= k;
 	}
 	c->written += n;
+	if (dbg()) { fprintf(stderr, "  writev fd=%d accepted %zu of %zu:", fd, n, want); size_t k = 0; for (auto it = c->wire.end() - (ptrdiff_t) n; it != c->wire.end() && k < 64; ++it, ++k) fprintf(stderr, " %02x", *it); fputc('\n', stderr); }
 	return (ssize_t) n;
 }
 int __wrap_poll(struct pollfd *p, nfds_t n, int timeout) {
